@@ -90,6 +90,19 @@ var units = []unit{
 	{File: "HeaderChecks", Fns: []fnSpec{
 		{"src/visor", "Blockchain", "verifyBlockHeader"},
 	}},
+	// fourth stage (stage4.go): the 10x26-bit limb arithmetic of secp256k1's field
+	{File: "FieldLimbs", Preamble: fieldLimbsPreamble, Fns: []fnSpec{
+		{"src/cipher/secp256k1-go/secp256k1-go2", "Field", "Normalize"},
+		{"src/cipher/secp256k1-go/secp256k1-go2", "Field", "SetAdd"},
+		{"src/cipher/secp256k1-go/secp256k1-go2", "Field", "MulInt"},
+		{"src/cipher/secp256k1-go/secp256k1-go2", "Field", "Negate"},
+		{"src/cipher/secp256k1-go/secp256k1-go2", "Field", "IsOdd"},
+		{"src/cipher/secp256k1-go/secp256k1-go2", "Field", "IsZero"},
+		{"src/cipher/secp256k1-go/secp256k1-go2", "Field", "Equals"},
+		{"src/cipher/secp256k1-go/secp256k1-go2", "Field", "SetInt"},
+		{"src/cipher/secp256k1-go/secp256k1-go2", "Field", "SetB32"},
+		{"src/cipher/secp256k1-go/secp256k1-go2", "Field", "GetB32"},
+	}},
 	{File: "FeeTxn", Imports: []string{"Mathutil", "Fee", "CoinHours", "CoinLoops"}, Fns: []fnSpec{
 		{"src/util/fee", "", "VerifyTransactionFee"},
 		{"src/util/fee", "", "TransactionFee"},
@@ -155,7 +168,16 @@ type tr struct {
 	truncStmt      *ast.AssignStmt
 	keptName       string
 	keptFinal      string
-	proj           map[string][][]string // second pass: element projection of each slice
+	// stage4.go
+	arrRoots   map[string]*arrRoot
+	arrOrder   []string
+	arrPlan    map[string]arrPlan // second pass: which roots are inputs / outputs
+	arrCfg     map[string]int     // []byte parameters of fixed length
+	consts     map[string]int64   // compile-time constant locals (unrolled loops)
+	straight   map[ast.Stmt]bool
+	unrollN    int
+	whileMemos map[*ast.ForStmt]whileMemo
+	proj       map[string][][]string // second pass: element projection of each slice
 }
 
 func (t *tr) gensym(p string) string { t.fresh++; return fmt.Sprintf("%s_%d", p, t.fresh) }
@@ -291,6 +313,16 @@ func (t *tr) expr(e ast.Expr) ex {
 		if tv.Value.Kind() == constant.String {
 			return pure(coqString(constant.StringVal(tv.Value)))
 		}
+	}
+	if len(t.consts) > 0 {
+		if _, _, isInt := intInfo(t.info.TypeOf(e)); isInt {
+			if v, ok := t.constEval(e); ok {
+				return pure(fmt.Sprintf("%d", v))
+			}
+		}
+	}
+	if r, ok := t.cellRead(e); ok {
+		return r
 	}
 	switch x := e.(type) {
 	case *ast.ParenExpr:
@@ -492,6 +524,9 @@ func (t *tr) binary(x *ast.BinaryExpr) ex {
 		}
 		return lift2(a, b, func(p, q string) string { return fmt.Sprintf("negb (%s =? %s)", p, q) }, t)
 	}
+	if r, ok := t.bitOp(x, a, b); ok {
+		return r
+	}
 	bits, signed, ok := intInfo(t.info.TypeOf(x))
 	if !ok {
 		fail(t.fset, x, "arithmetic on non-integer type %v", t.info.TypeOf(x))
@@ -614,6 +649,9 @@ func (t *tr) call(c *ast.CallExpr) ex {
 	}
 	args := []string{}
 	sig := fn.Type().(*types.Signature)
+	if fi := t.finfo[key]; fi != nil && fi.HasArr {
+		fail(t.fset, c, "call of %s, which has array parameters", full)
+	}
 	if fi := t.finfo[key]; fi != nil && fi.Extended {
 		return t.callExt(c, fn, fi)
 	}
@@ -779,6 +817,9 @@ func (t *tr) stmts(list []ast.Stmt, rest string) string {
 			if t.named == nil && t.nres > 0 {
 				fail(t.fset, x, "bare return without named results")
 			}
+			if t.nres == 0 && t.hasOuts() {
+				return "Val " + tuple(t.outCells(x))
+			}
 			if t.nres == 0 {
 				return "Val tt"
 			}
@@ -790,7 +831,7 @@ func (t *tr) stmts(list []ast.Stmt, rest string) string {
 		if len(x.Results) == 1 && t.nres > 1 {
 			// return f(...) forwarding a tuple
 			r := t.expr(x.Results[0])
-			if !r.mon {
+			if !r.mon || t.hasOuts() {
 				fail(t.fset, x, "tuple-forwarding return of a pure expression")
 			}
 			return r.code
@@ -816,6 +857,9 @@ func (t *tr) stmts(list []ast.Stmt, rest string) string {
 				vals = append(vals, v.code)
 			}
 		}
+		if t.hasOuts() {
+			vals = append(vals, t.outCells(x)...)
+		}
 		return pre + "Val " + tuple(vals) + post
 	case *ast.ExprStmt:
 		if c, ok := x.X.(*ast.CallExpr); ok {
@@ -836,6 +880,20 @@ func (t *tr) stmts(list []ast.Stmt, rest string) string {
 			fail(t.fset, x, "declaration")
 		}
 		vs := gd.Specs[0].(*ast.ValueSpec)
+		if len(vs.Names) > 1 && len(vs.Values) == 0 && len(t.arrRoots) > 0 {
+			// var a, b, c T: zero values
+			if _, _, ok := intInfo(t.info.TypeOf(vs.Names[0])); !ok {
+				fail(t.fset, x, "multi-name var declaration of a non-integer type")
+			}
+			code := ""
+			for _, n := range vs.Names {
+				code += fmt.Sprintf("let %s := 0 in\n", san(n.Name))
+				if t.consts != nil {
+					t.consts[san(n.Name)] = 0
+				}
+			}
+			return code + k()
+		}
 		if len(vs.Names) != 1 {
 			fail(t.fset, x, "multi-name var declaration")
 		}
@@ -849,6 +907,13 @@ func (t *tr) stmts(list []ast.Stmt, rest string) string {
 			v = t.expr(vs.Values[0])
 		} else if t.isErrorType(t.info.TypeOf(vs.Names[0])) {
 			v = pure("(None : error)")
+		}
+		if len(vs.Values) == 1 {
+			t.noteAssign(san(vs.Names[0].Name), vs.Values[0])
+		} else if t.consts != nil {
+			if _, _, ok := intInfo(t.info.TypeOf(vs.Names[0])); ok {
+				t.consts[san(vs.Names[0].Name)] = 0
+			}
 		}
 		return letIn(san(vs.Names[0].Name), v)
 	case *ast.IncDecStmt:
@@ -869,6 +934,7 @@ func (t *tr) stmts(list []ast.Stmt, rest string) string {
 			op = "-"
 		}
 		n := san(id.Name)
+		t.noteAssign(n, nil)
 		return letIn(n, pure(fmt.Sprintf("%s %d (%s %s 1)", w, bits, n, op)))
 	case *ast.AssignStmt:
 		if x == t.truncStmt {
@@ -878,13 +944,17 @@ func (t *tr) stmts(list []ast.Stmt, rest string) string {
 			return s
 		}
 		if len(x.Lhs) == 1 && len(x.Rhs) == 1 {
+			cell, isCell := t.cellWrite(x)
 			id, ok := x.Lhs[0].(*ast.Ident)
-			if !ok {
+			if !ok && !isCell {
 				fail(t.fset, x, "assignment to non-identifier")
 			}
-			name := san(id.Name)
-			if id.Name == "_" {
-				name = t.gensym("_u")
+			name := cell
+			if !isCell {
+				name = san(id.Name)
+				if id.Name == "_" {
+					name = t.gensym("_u")
+				}
 			}
 			switch x.Tok {
 			case token.DEFINE, token.ASSIGN:
@@ -894,16 +964,28 @@ func (t *tr) stmts(list []ast.Stmt, rest string) string {
 				} else {
 					v = t.expr(x.Rhs[0])
 				}
+				if isCell {
+					t.markWritten(x)
+				} else {
+					t.noteAssign(name, x.Rhs[0])
+				}
 				return letIn(name, v)
 			default:
 				// op-assign
-				opTok := map[token.Token]token.Token{token.ADD_ASSIGN: token.ADD, token.SUB_ASSIGN: token.SUB, token.MUL_ASSIGN: token.MUL, token.QUO_ASSIGN: token.QUO, token.REM_ASSIGN: token.REM}[x.Tok]
+				opTok := map[token.Token]token.Token{token.ADD_ASSIGN: token.ADD, token.SUB_ASSIGN: token.SUB, token.MUL_ASSIGN: token.MUL, token.QUO_ASSIGN: token.QUO, token.REM_ASSIGN: token.REM,
+					token.AND_ASSIGN: token.AND, token.OR_ASSIGN: token.OR, token.XOR_ASSIGN: token.XOR, token.SHL_ASSIGN: token.SHL, token.SHR_ASSIGN: token.SHR}[x.Tok]
 				if opTok == 0 {
 					fail(t.fset, x, "assignment operator %s", x.Tok)
 				}
 				be := &ast.BinaryExpr{X: x.Lhs[0], Op: opTok, Y: x.Rhs[0], OpPos: x.TokPos}
 				t.info.Types[be] = types.TypeAndValue{Type: t.info.TypeOf(x.Lhs[0])}
-				return letIn(name, t.binary(be))
+				v := t.binary(be)
+				if isCell {
+					t.markWritten(x)
+				} else {
+					t.noteAssign(name, be)
+				}
+				return letIn(name, v)
 			}
 		}
 		if len(x.Rhs) == 1 && len(x.Lhs) > 1 {
@@ -921,6 +1003,7 @@ func (t *tr) stmts(list []ast.Stmt, rest string) string {
 					names = append(names, "_")
 				} else {
 					names = append(names, san(id.Name))
+					t.noteAssign(san(id.Name), nil)
 				}
 			}
 			return fmt.Sprintf("bind (%s) (fun %s =>\n%s)", r.code, pat(names), k())
@@ -934,6 +1017,7 @@ func (t *tr) stmts(list []ast.Stmt, rest string) string {
 			// unique enough in the supported subset to hoist.
 			return t.stmts(append([]ast.Stmt{x.Init, &ast.IfStmt{If: x.If, Cond: x.Cond, Body: x.Body, Else: x.Else}}, list[1:]...), rest)
 		}
+		t.forgetAssigned(x)
 		c := t.expr(x.Cond)
 		var elseList []ast.Stmt
 		if x.Else != nil {
@@ -966,11 +1050,19 @@ func (t *tr) stmts(list []ast.Stmt, rest string) string {
 		}
 		return strings.Replace(body, "\x00C", c.code, 1)
 	case *ast.ForStmt:
+		if x.Init == nil && x.Post == nil && x.Cond != nil && len(t.arrRoots) > 0 {
+			return t.whileStmt(x, k)
+		}
+		if s, ok := t.unrollFor(x, k); ok {
+			return s
+		}
 		if t.loop != nil {
 			fail(t.fset, x, "counted loop inside a range loop")
 		}
+		t.forgetAssigned(x)
 		return t.forStmt(x, k)
 	case *ast.RangeStmt:
+		t.forgetAssigned(x)
 		return t.rangeStmt(x, k)
 	case *ast.BranchStmt:
 		if x.Tok == token.BREAK && x.Label == nil && t.loop != nil {
@@ -1048,6 +1140,7 @@ type fnOut struct {
 	Pos     string
 	Info    *fnInfo  // typed parameters (loops.go)
 	Helpers []string // loop Fixpoints to emit before the definition
+	ArrDoc  string   // stage4: what the array cells / results are
 }
 
 // function translates fd; when it has slice-of-struct parameters a first pass
@@ -1055,7 +1148,40 @@ type fnOut struct {
 // produces the code.
 func (t *tr) function(fd *ast.FuncDecl, coqName string) fnOut {
 	t.proj = nil
+	t.arrPlan = nil
 	o := t.function1(fd, coqName)
+	if len(t.arrOrder) > 0 {
+		if len(t.sliceOrder) > 0 {
+			fail(t.fset, fd, "array parameters together with slice-of-struct parameters")
+		}
+		plan := map[string]arrPlan{}
+		for _, name := range t.arrOrder {
+			ar := t.arrRoots[name]
+			p := arrPlan{in: ar.read, out: len(ar.written) > 0}
+			if p.out && len(ar.written) < ar.n {
+				p.in = true // the cells not written are returned as they came in
+			}
+			plan[name] = p
+		}
+		// an output that is returned early keeps its incoming cells: decided while translating
+		for i := 0; i < 3; i++ {
+			t.arrPlan = plan
+			o = t.function1(fd, coqName)
+			changed := false
+			for _, name := range t.arrOrder {
+				if t.arrRoots[name].read && !plan[name].in {
+					p := plan[name]
+					p.in = true
+					plan[name] = p
+					changed = true
+				}
+			}
+			if !changed {
+				return o
+			}
+		}
+		fail(t.fset, fd, "internal: array plan does not settle")
+	}
 	if len(t.sliceOrder) > 0 {
 		proj := map[string][][]string{}
 		for _, sn := range t.sliceOrder {
@@ -1083,6 +1209,8 @@ func (t *tr) function1(fd *ast.FuncDecl, coqName string) fnOut {
 	t.loopMemo = map[*ast.RangeStmt]loopMemo{}
 	t.extras, t.zeroLocals, t.sizeModelSlice, t.inputRoots, t.keptName = nil, map[string]bool{}, map[string]bool{}, map[string]string{}, ""
 	t.keptFinal = ""
+	t.arrRoots, t.arrOrder, t.consts, t.straight, t.unrollN, t.whileMemos = map[string]*arrRoot{}, nil, nil, map[ast.Stmt]bool{}, 0, map[*ast.ForStmt]whileMemo{}
+	t.straightStmts(fd.Body.List)
 	t.truncStmt = t.findTruncStmt(fd)
 	params := []string{}
 	goParams := []string{}
@@ -1096,6 +1224,19 @@ func (t *tr) function1(fd *ast.FuncDecl, coqName string) fnOut {
 				ty := t.info.TypeOf(f.Type)
 				if p, ok := ty.(*types.Pointer); ok {
 					ty = p.Elem()
+				}
+				if fld, cnt, ok := arrStruct(ty); ok {
+					t.addArrRoot(n.Name, fld, cnt, ty)
+					params = append(params, "\x00ARR:"+n.Name)
+					continue
+				}
+				if cnt, ok := t.arrCfg[n.Name]; ok {
+					if sl, isSl := ty.Underlying().(*types.Slice); !isSl || !isByte(sl.Elem()) {
+						fail(t.fset, f, "fixed-length parameter %s is not a []byte", n.Name)
+					}
+					t.addArrRoot(n.Name, "", cnt, ty)
+					params = append(params, "\x00ARR:"+n.Name)
+					continue
 				}
 				if st, ok := ty.Underlying().(*types.Struct); ok {
 					t.roots[n.Name] = true
@@ -1151,6 +1292,13 @@ func (t *tr) function1(fd *ast.FuncDecl, coqName string) fnOut {
 	if t.truncStmt != nil {
 		fall = "Val " + keptMark
 	}
+	if t.hasOuts() {
+		if t.nres > 0 {
+			fall = "Panic (* unreachable: function body fell through *)"
+		} else {
+			fall = "Val " + tuple(t.outCellNames())
+		}
+	}
 	body := pre + t.stmts(fd.Body.List, fall)
 	if t.truncStmt != nil {
 		if t.keptFinal == "" {
@@ -1164,6 +1312,19 @@ func (t *tr) function1(fd *ast.FuncDecl, coqName string) fnOut {
 	for _, p := range t.extras {
 		all = append(all, p.Name)
 	}
+	// array roots: all cells of an input root, in index order, at the parameter's position
+	expanded := []string{}
+	for _, p := range params {
+		if strings.HasPrefix(p, "\x00ARR:") {
+			ar := t.arrRoots[strings.TrimPrefix(p, "\x00ARR:")]
+			if (t.arrPlan != nil && t.arrPlan[ar.name].in) || (t.arrPlan == nil && ar.read) {
+				expanded = append(expanded, ar.cells()...)
+			}
+			continue
+		}
+		expanded = append(expanded, p)
+	}
+	params = expanded
 	all = append(append(all, t.fields...), params...)
 	var src bytes.Buffer
 	printer.Fprint(&src, t.fset, fd)
@@ -1208,7 +1369,28 @@ func (t *tr) function1(fd *ast.FuncDecl, coqName string) fnOut {
 		}
 		fi.Params = append(fi.Params, pi)
 	}
-	return fnOut{Name: coqName, Params: all, Code: body, Src: src.String(), Pos: t.fset.Position(fd.Pos()).String(), Info: fi, Helpers: t.helpers}
+	arrDoc := ""
+	if len(t.arrOrder) > 0 {
+		fi.HasArr = true
+		fi.Extended = true
+		var ins, outs []string
+		for _, name := range t.arrOrder {
+			ar := t.arrRoots[name]
+			what := fmt.Sprintf("%s .. %s = %s[0] .. [%d]", ar.cell(0), ar.cell(ar.n-1), strings.TrimSuffix(name+"."+ar.field, "."), ar.n-1)
+			if t.arrPlan != nil && t.arrPlan[name].in {
+				ins = append(ins, what)
+			}
+			if t.arrPlan != nil && t.arrPlan[name].out {
+				outs = append(outs, what)
+			}
+		}
+		arrDoc = "(* array parameters of " + coqName + ": " + strings.Join(ins, "; ")
+		if len(outs) > 0 {
+			arrDoc += "\n   result: the Go results, then (modified through the pointer) " + strings.Join(outs, "; ")
+		}
+		arrDoc += " *)\n"
+	}
+	return fnOut{ArrDoc: arrDoc, Name: coqName, Params: all, Code: body, Src: src.String(), Pos: t.fset.Position(fd.Pos()).String(), Info: fi, Helpers: t.helpers}
 }
 
 func findFunc(p *packages.Package, recv, name string) *ast.FuncDecl {
@@ -1354,7 +1536,7 @@ func main() {
 				fmt.Fprintf(os.Stderr, "TRANSLATION-BREAK: function %s.%s.%s not found\n", f.Pkg, f.Recv, f.Name)
 				os.Exit(3)
 			}
-			t := &tr{fset: p.Fset, pkg: p, info: p.TypesInfo, known: known, finfo: finfo, opaque: opaqueMethods[f.Pkg+"."+f.Recv+"."+f.Name], cfg: fnConfigs[f.Pkg+"."+f.Recv+"."+f.Name]}
+			t := &tr{fset: p.Fset, pkg: p, info: p.TypesInfo, known: known, finfo: finfo, opaque: opaqueMethods[f.Pkg+"."+f.Recv+"."+f.Name], cfg: fnConfigs[f.Pkg+"."+f.Recv+"."+f.Name], arrCfg: arrayParams[f.Pkg+"."+f.Recv+"."+f.Name]}
 			coqName := f.Name
 			if f.Recv != "" {
 				coqName = f.Recv + "_" + f.Name
@@ -1380,6 +1562,7 @@ func main() {
 				ps = typedBinders(names, tys)
 				b.WriteString(doc)
 			}
+			b.WriteString(o.ArrDoc)
 			for _, h := range o.Helpers {
 				b.WriteString(h)
 			}
